@@ -21,6 +21,16 @@ def items(tier):
     for c in grid.index_grid(tier):
         out.append(("vjp", c))
         out.append(("jvp", c))
+    # second order through indexing of COMPLEX arrays at complex-typed, real-valued points (float64 probe)
+    from ..enga import Config, Cx
+    import numpy as onp
+
+    W3 = onp.array([1.0, -2.0, 0.5])
+    for lab, f in [("sum |z[[0,0,2]]|^2 + sum Re(z)^2", lambda np, z: np.sum(np.abs(z[[0, 0, 2]]) ** 2) + np.sum(np.real(z) ** 2)),
+                   ("sum |z[1:]|^2 * w + |z[0]|^2", lambda np, z: np.sum(np.abs(z[1:]) ** 2 * W3[1:]) + np.abs(z[0]) ** 2),
+                   ("Re(z[::-1] * z) summed with a boolean mask pick", lambda np, z: np.sum(np.real(z[::-1] * z)) + np.sum(np.abs(z[onp.array([True, False, True])]) ** 2)),
+                   ("|z[idx]|^2 gathered twice plus dense |z|^4", lambda np, z: np.sum(np.abs(z[[2, 1, 1]]) ** 2 * W3) + np.sum(np.abs(z) ** 4))]:
+        out.append(("second0", Config("getitem", "IDX2 complex, real-valued point: " + lab, f, [Cx(3)], 0, tags=("index", "second"))))
     only = os.environ.get("VF_ONLY")
     if only:
         import re
@@ -34,6 +44,10 @@ def item_key(it):
 
 def check(it, tier):
     mode, cfg = it
+    if mode == "second0":
+        o = checks_a.check_second_at_real_valued_points(cfg, tier)
+        o.key = item_key(it)
+        return o
     o = checks_a.check_vjp(cfg, tier) if mode == "vjp" else checks_a.check_jvp(cfg, tier)
     o.key = item_key(it)
     if o.status == "raises":
